@@ -253,6 +253,10 @@ class Walker:
         if isinstance(t, ast.Name) and env.get(t.id) == "splitrest" and ast.unparse(b) == f"{t.id}[0]" \
                 and ast.unparse(o) == "None":
             return f"v_{t.id}", "ostr"
+        # B if SEP else None     (A, SEP, B = s.partition('#'))
+        if isinstance(t, ast.Name) and isinstance(b, ast.Name) and env.get(t.id) == "partsep:" + b.id \
+                and env.get(b.id) == "partrest" and ast.unparse(o) == "None":
+            return f"v_{b.id}", "ostr"
         # None if M is None else M.group(1)
         if ast.unparse(b) == "None" and isinstance(t, ast.Compare) and isinstance(t.left, ast.Name) \
                 and env.get(t.left.id) == "omatch" and ast.unparse(t) == f"{t.left.id} is None" \
@@ -410,6 +414,14 @@ class Walker:
             env[names[0]] = "str"
             env[names[1][1:]] = "splitrest"
             return (f"let v_{names[0]} := (before c_hash {a}) in\nlet v_{names[1][1:]} := (after c_hash {a}) in\n"
+                    f"{self.stmts(rest, env, warned)}")
+        #   a, sep, b = s.partition('#')   +   b if sep else None      (the same thing, spelled with partition)
+        if names and len(names) == 3 and vs.endswith(".partition('#')"):
+            a, _ = self.expr(val.func.value, env, "str")
+            env[names[0]] = "str"
+            env[names[1]] = "partsep:" + names[2]
+            env[names[2]] = "partrest"
+            return (f"let v_{names[0]} := (before c_hash {a}) in\nlet v_{names[2]} := (after c_hash {a}) in\n"
                     f"{self.stmts(rest, env, warned)}")
         if names and len(names) == 2 and isinstance(val, ast.Subscript) and ast.unparse(val.slice) == "1:" \
                 and isinstance(val.value, ast.Name) and env.get(val.value.id) == "oinc" and val.value.id in env.bound:
